@@ -509,11 +509,11 @@ def grid_guard(ck, mod, f, E, offs, reseeds, n, label):
                 if I.op == "load":
                     b, o = ir.ptr_base(f, I.ops[0])
                     if b == ("a", 0) and o == c_off:
-                        return ("bind", ("i", I.id), e.get("ctr", c))
+                        return ("bind", ("i", I.id), e.get(("ctr",), c))
                     if b == ("a", 0) and o == l_off:
                         return ("bind", ("i", I.id), l)
                 if I.op == "call" and I.callee == "tinyjambu_prng_reseed":
-                    return [("bind", "ctr", 1), ("reseed",)]
+                    return [("bind", ("ctr",), 1), ("reseed",)]
                 return None
             env = {}
             if si is not None:
